@@ -2,3 +2,4 @@ import ZCV.Props.C02
 open ZCV.Props.C02
 #print axioms C02_attrs_exact
 #print axioms C02_value_eq_denote
+#print axioms C02_text_value_eq_denote
